@@ -70,6 +70,7 @@ struct LifetimeRegistry {
     destroyed_while_other_guarded = destroyed_in_history = destroyed_by_other_after_exit = guards_registered = 0;
   }
   void err(const char* prop, const char* kind, const std::string& msg) {
+    xrt::Quiet q; // monitor state: never touched with scheduling points enabled
     if (err_kind.empty()) {
       err_prop = prop;
       err_kind = kind;
